@@ -699,6 +699,29 @@ def short_name(fn: FunctionInfo) -> str:
     return (fn.cls.name + "." if fn.cls else "") + fn.name
 
 
+def factory_rule_for(idx: ProgramIndex, rep: Report, prop: str, rule: str, where) -> int:
+    """Re-emit rule F (floating factories carry an operand's dtype) under another property for the functions selected
+    by `where(finding_function_name, loc)` - e.g. the product kernels under C01."""
+    sub = Report(PROP, "quick", rep.root)
+    sub.quiet = True
+    records = {c.name: ctor_record(idx, c) for c in idx.operator_classes()}
+    rule_f(idx, sub, records)
+    n = 0
+    for r in ("C14.F", "C14.F2"):
+        st = sub.rules.get(r)
+        if st is None:
+            continue
+        bad = [f for f in sub.findings if f.rule == r]
+        for f in bad:
+            if where(f.function, f.loc):
+                n += 1
+                rep.bad(rule, Finding(prop, rule, f.function, f.construct, f"[{r}] {f.message}", f.loc))
+        for smp in st.samples:
+            pass
+        rep.count(rule, max(st.instances - len(bad), 0))
+    return n
+
+
 def run(idx: ProgramIndex, rep: Report, tier: str, selftest: bool = True):
     rep.extra["explanation"] = (
         "Table-agreement and dataflow rules over the ast of every operator class. A: the chain of __init__ calls of "
